@@ -26,6 +26,7 @@ import (
 	"fmt"
 	"github.com/nats-io/nats.go"
 	"github.com/nuts-foundation/go-did/vc"
+	"github.com/nuts-foundation/go-stoabs"
 	"github.com/nuts-foundation/nuts-node/core"
 	"github.com/nuts-foundation/nuts-node/events"
 	"github.com/nuts-foundation/nuts-node/jsonld"
@@ -120,6 +121,11 @@ func (n ambassador) handleError(err error) (bool, error) {
 	// Recoverable: context time-outs and cancellations (e.g. storage taking too long)
 	if errors.Is(err, context.Canceled) ||
 		errors.Is(err, context.DeadlineExceeded) {
+		return false, err
+	}
+	// Recoverable: the database (or its backup) could not be accessed. Dropping the event would lose the credential,
+	// or worse, the revocation: the credential would then be accepted as not revoked by this node forever.
+	if errors.As(err, new(stoabs.ErrDatabase)) {
 		return false, err
 	}
 	// Disallowed URLs (configurable) is "basic flow"; not an error, no need to retry
